@@ -7,6 +7,7 @@ import Bip39V.Model.Stringer
 import Bip39V.Model.Tool
 import Bip39V.Model.GoSem
 import Bip39V.Spec.Bip39
+import Bip39V.Unicode.XText
 import Bip39V.Crypto.Sha
 import Bip39V.Crypto.Sha256Spec
 import Bip39V.Crypto.Pbkdf2Spec
@@ -34,7 +35,9 @@ def hexOfStr (s : Str) : String := hexOf (utf8 s)
 
 def D : Bytes → Bytes := Crypto.S256.sha256
 def PB : Bytes → Bytes → Nat → Nat → Bytes := Crypto.pbkdf2L
-def X : Str → Str := Unicode.nfkd
+/-- the model's normaliser: the executable model of x/text's stream-safe NFKD (`Unicode/XText.lean`);
+the specification side (S) always uses UAX #15 NFKD -/
+def X : Str → Str := Unicode.xnfkd
 
 def panicName : Panic → String
   | .divByZero => "divByZero" | .indexOutOfRange => "indexOutOfRange" | .makeNegative => "makeNegative"
@@ -137,9 +140,10 @@ def answer (line : String) : String :=
   | ["chk", l, h] =>
     match l.toInt?, strOfHex h with
     | some ℓ, some str =>
-      -- the NFKD form is computed once and shared (the model applies its normaliser to `str` only)
+      -- each normal form is computed once (the model applies its normaliser to `str` only)
       let n := Unicode.nfkd str
-      let m := showRes (fun _ => "") (Model.checkMnemonic (fun _ => n) D str ℓ)
+      let xn := X str
+      let m := showRes (fun _ => "") (Model.checkMnemonic (fun _ => xn) D str ℓ)
       let ss := decide (Unicode.maxKRun n ≤ 30)
       let s := match Spec.Lang.ofValue ℓ with
         | none => "reject ws=0"
@@ -203,6 +207,10 @@ def answer (line : String) : String :=
   | ["nfkd", h] =>
     match strOfHex h with
     | some s => s!"M ok {hexOfStr (Unicode.nfkd s)}\tS - ss={b01 (Unicode.streamSafe s)}"
+    | none => "bad-op"
+  | ["xnfkd", h] =>        -- the model of x/text's norm.NFKD.String (M) and UAX #15 NFKD (S)
+    match strOfHex h with
+    | some s => s!"M ok {hexOfStr (Unicode.xnfkd s)}\tS ok {hexOfStr (Unicode.nfkd s)} ss={b01 (Unicode.streamSafe s)}"
     | none => "bad-op"
   | ["sha256", h] =>
     match unhex h with
